@@ -1,3 +1,4 @@
+//go:build verif
 // +build verif
 
 // Package verifseam is the seam behind which the model-checking harness under /verif puts the three
@@ -35,6 +36,10 @@ type Ctx struct {
 	// Mismatch counts plan entries that did not fit the occurrence they were meant for (the explorer
 	// treats that as a harness error, never as a verdict)
 	Mismatch int
+	// KeepWrites: log every write that reaches the committed state tree, in order ("I:" insertion of a new
+	// key, "U:" update of an existing one, "D:" deletion); the harness empties Writes after every block
+	KeepWrites bool
+	Writes     []string
 }
 
 var cur = &Ctx{}
@@ -125,6 +130,23 @@ func Order(site string, m interface{}) []string {
 		alt = 0
 	}
 	return permute(ids, alt)
+}
+
+// Wrote is called by the generated overlay of storage/chainstate.go for every Set/Delete on the committed
+// tree (existed: the key was in the tree before this write).
+func Wrote(key []byte, del bool, existed bool) {
+	c := cur
+	if !c.KeepWrites {
+		return
+	}
+	switch {
+	case del:
+		c.Writes = append(c.Writes, "D:"+string(key))
+	case existed:
+		c.Writes = append(c.Writes, "U:"+string(key))
+	default:
+		c.Writes = append(c.Writes, "I:"+string(key))
+	}
 }
 
 // Now is the replica's wall clock.
